@@ -46,7 +46,16 @@ POOL = [
     dict(id='dti_a_skip', kind='dti', biort='near_sym_a', qshift='qshift_a', J=2, H=8, W=8, B=1, C=1, placeholder=[1, 0]),
     dict(id='dti_06', kind='dti', biort='legall', qshift='qshift_06', J=2, H=6, W=8, B=1, C=1),
 ]
-BYID = {p['id']: p for p in POOL}
+# further targets: only run as [target, target] and after two unrelated calls (not crossed with the whole pool)
+EXTRA = [
+    dict(id='dtf_odd', kind='dtf', biort='near_sym_a', qshift='qshift_a', J=2, H=5, W=7, B=1, C=2),
+    dict(id='dtf_odd2', kind='dtf', biort='near_sym_b', qshift='qshift_b', J=1, H=3, W=3, B=2, C=1),
+    dict(id='dti_planar', kind='dti', biort='near_sym_a', qshift='qshift_a', J=2, H=8, W=8, B=1, C=1, view='ri_planar'),
+    dict(id='dti_planar_b2', kind='dti', biort='near_sym_b', qshift='qshift_b', J=1, H=4, W=6, B=2, C=2, view='ri_planar'),
+    dict(id='d2_odd', kind='dwt2f', wave='db2', mode='symmetric', J=2, H=7, W=9, B=2, C=2),
+    dict(id='d1_b2', kind='dwt1f', wave='db2', mode='reflect', J=2, N=11, B=2, C=3),
+]
+BYID = {p['id']: p for p in POOL + EXTRA}
 # (pool id of the target call, overrides giving the earlier call's input size on the same instance)
 SAME = [('d1_db3_sym', dict(N=5, J=2)), ('d1_db3_sym', dict(N=40)), ('d1_coif1_sym', dict(N=7)), ('d2_db2_sym', dict(H=3, W=4)), ('d2_db2_per', dict(H=12, W=5)),
         ('swt_db2', dict(H=8, W=4)), ('dtf_a', dict(H=2, W=2)), ('dtf_a', dict(H=16, W=12)), ('dti_06', dict(H=4, W=4)), ('d2i_db2_zero', dict(H=9, W=5)),
@@ -72,8 +81,10 @@ def configs(tier, seed):
                     k += 1
                     if tier == 'thorough' and (k + seed) % 3 == 0 or tier == 'quick' and (k + seed) % 40 == 0:
                         out.append(dict(seq=[a1, a2, t]))
-    for p in POOL:
+    for p in POOL + EXTRA:
         out.append(dict(seq=[p['id'], p['id']]))
+    for p in EXTRA:
+        out.append(dict(seq=['d1_db3_sym', 'dtf_a', p['id']]))
     # the SAME module instance first sees a short / differently shaped input, then the target input
     for (mid, alt) in SAME:
         out.append(dict(seq=[mid], same_instance=alt))
@@ -110,6 +121,15 @@ def _build_args(pw, c, ts):
     if c['kind'] in ('dwt1f', 'dwt2f', 'swt', 'dtf'):
         return ts[0]
     hs = list(ts[1:])
+    if c.get('view') == 'ri_planar':
+        # the caller keeps real and imaginary planes in separate blocks of memory and hands over a (..., 2) view of them
+        planar = []
+        for j, h in enumerate(hs):
+            base = tt.stack((h[..., 0], h[..., 1]), 0)
+            if hasattr(base, '_origin'):
+                base._origin = 'arg:yh%d(planar)' % (j + 1)
+            planar.append(base.permute(1, 2, 3, 4, 5, 0))
+        hs = planar
     if c.get('placeholder'):
         hs = [tt.zeros([], dtype=ts[0].dtype) if c['placeholder'][j] else h for j, h in enumerate(hs)]
     return (ts[0], hs)
@@ -154,12 +174,15 @@ def _sym_call(c, requires_grad=False, nograd=False, inst=None):
     attrs_before = _attrs(m)
     args = _build_args(spw, c, tens)
     lists_before = [(args[1], list(args[1]))] if isinstance(args, tuple) else []
-    snap = [t.a.copy() for t in tens]
+    passed = [args] if not isinstance(args, tuple) else [args[0]] + [h for h in args[1] if isinstance(h, T.Tensor)]
+    names = [nm for nm, _ in _specs(c)]
+    watch = list(zip(tens, names)) + [(t, 'passed#%d' % i) for i, t in enumerate(passed) if all(t is not u for u in tens)]
+    snap = [t.a.copy() for t, _ in watch]
     T.STATE.writes.clear()
     outs = _invoke(m, c, args)
     report = []
-    for t, s0, (nm, _) in zip(tens, snap, _specs(c)):
-        if t.a.shape != s0.shape or any(not p.same(q) for p, q in zip(t.a.reshape(-1), s0.reshape(-1))):
+    for (t, nm), s0 in zip(watch, snap):
+        if t.a.shape != s0.shape or (t.a.dtype == object and any(not p.same(q) for p, q in zip(t.a.reshape(-1), s0.reshape(-1)))):
             report.append('argument tensor %s was modified' % nm)
     for lst, before in lists_before:
         if len(lst) != len(before) or any(x is not y for x, y in zip(lst, before)):
@@ -184,12 +207,14 @@ def _real_call(c, xs, inst=None):
     ts = [rt.tensor(x, dtype=rt.float32 if c.get('f32') else rt.float64) for x in xs]
     args = _build_args(symtorch.real(), c, ts)
     before = list(args[1]) if isinstance(args, tuple) else None
-    snap = [t.clone() for t in ts]
+    passed = [args] if not isinstance(args, tuple) else [args[0]] + [h for h in args[1] if isinstance(h, rt.Tensor)]
+    watch = list(ts) + [t for t in passed if all(t is not u for u in ts)]
+    snap = [t.clone() for t in watch]
     outs = _invoke(m, c, args)
     rep = []
     if before is not None and (len(before) != len(args[1]) or any(x is not y for x, y in zip(before, args[1]))):
         rep.append('argument list was modified')
-    if any(not rt.equal(a, b) for a, b in zip(ts, snap)):
+    if any(not rt.equal(a, b) for a, b in zip(watch, snap)):
         rep.append('argument tensor was modified')
     return [o.detach().double().numpy() for o in outs], rep
 
@@ -336,6 +361,15 @@ def run_config(cfg):
     outs, ids, report = so[1]
     routs, rreport = ro[1]
     res.nontrivial = True
+    # (a0) never-written memory (torch.empty & co) must not reach a result: its contents depend on the allocator's history
+    hit = symtorch.uninit_atoms([p for a in outs if a is not None for p in a.reshape(-1)])
+    if hit:
+        with symtorch.poison_uninit():
+            po = core.outcome(lambda: _real_call(target, xs, inst=None))
+        bad = po[0] == 'ok' and any(not np.isfinite(r).all() for r in po[1][0])
+        res.status = 'violation'
+        res.violations.append(dict(what='output of %s depends on uninitialised memory (torch.empty / new_empty contents, %d elements): the result depends on the allocator history' % (target['id'], len(hit)),
+                                   facts=dict(facts, uninitialised=True), replay=dict(kind='uninit'), reproduced=bool(bad))); return res
     # (a), (b) purity
     if report or rreport:
         res.status = 'violation'
